@@ -2,6 +2,8 @@ package main
 
 import (
 	"crypto/elliptic"
+	"encoding/json"
+	"github.com/bnb-chain/tss-lib/v2/crypto/paillier"
 	"math/big"
 	"sync"
 
@@ -122,4 +124,35 @@ func sessBuf(v val.V) []byte {
 	sessScratch = sessScratch[:len(b)]
 	copy(sessScratch, b)
 	return sessScratch
+}
+
+// Long-lived key objects. An application keeps one key variable and loads key files into it: json.Unmarshal into an
+// existing struct re-populates the exported fields in place and leaves everything else on the object alone. Every op
+// takes its Paillier keys through these two functions, so anything the library remembers on a key object from an earlier
+// key (a memoised square, a cached decryption constant) shows up as a difference from the model, which knows only values.
+var (
+	sharedPaiPK paillier.PublicKey
+	sharedPaiSK paillier.PrivateKey
+)
+
+func paiPKObj(N *big.Int) *paillier.PublicKey {
+	bz, err := json.Marshal(&paillier.PublicKey{N: N})
+	if err != nil {
+		panic(err)
+	}
+	if err := json.Unmarshal(bz, &sharedPaiPK); err != nil {
+		panic(err)
+	}
+	return &sharedPaiPK
+}
+
+func paiSKObj(k []*big.Int) *paillier.PrivateKey {
+	bz, err := json.Marshal(&paillier.PrivateKey{PublicKey: paillier.PublicKey{N: k[0]}, LambdaN: k[1], PhiN: k[2], P: k[3], Q: k[4]})
+	if err != nil {
+		panic(err)
+	}
+	if err := json.Unmarshal(bz, &sharedPaiSK); err != nil {
+		panic(err)
+	}
+	return &sharedPaiSK
 }
